@@ -1,29 +1,43 @@
 (* C03 -- no input can take the embedding host down.
    (a) containment: Model/Host.v models Eval / Load / Call / Func with the glue and every recover handler
-       exact and the stage bodies chosen by an adversary; under the listed invariants of the stage bodies no
-       panic escapes, and each invariant is either proved here or tested by the harness (checks/c03.py says
-       which); the c03_escape_* examples show that the invariants which the harness FALSIFIES on the current
-       implementation are exactly the ones the model needs.
+       exact (including loadImports' deferred recover, the nil-fs guard of rawLoadPackage, the nil-safe
+       token.String and newPos' clamp16) and the stage bodies chosen by an adversary; no panic escapes under
+       the few remaining invariants of the stage bodies (entry_hyps), none of which concerns the source text's
+       imports, the file system, nil operands or the size of line numbers any more.
    (b) termination of the front end: the theorems that exist in other packages collected, plus the Pratt
-       loop for arbitrary token lists, the peephole budget and the cursor discipline of the parser loops.
+       loop for arbitrary token lists, the loader worklist, the peephole budget and the cursor discipline of
+       the parser loops.
    (c) recursion depth: the Go stack depth of the expression parser is bounded by the number of tokens and
        a nest of n parentheses really needs n frames. *)
 From Coq Require Import ZArith List String Bool Lia PeanoNat.
 From GV Require Import GoSpec.GoPrec Model.Pratt Model.PrattInst Model.Loader Model.Lookup Model.IntMap
   Model.PeepTypes Model.VM Model.Peephole Model.Host Model.Cursor Gen.Tables_gen
-  Proofs.C15_loader Proofs.C08_lookup Proofs.C12_intmap Proofs.C03_host Proofs.C03_term Proofs.C03_cursor.
+  Proofs.C08_lookup Proofs.C12_intmap Proofs.C03_host Proofs.C03_term Proofs.C03_cursor.
 Import ListNotations.
 Open Scope string_scope.
 
 (* ==== (a) containment ================================================================================ *)
 
-(* for every entry point, every combination of options, every file system (nil or not) and every behaviour
-   of the stage bodies that respects the stage invariants: the call returns to the host or the script hangs;
-   no panic escapes *)
+(* for every entry point, every combination of options, every source (whatever it imports, whatever operands
+   it leaves out, however many lines it has), every file system (nil or not) and every behaviour of the stage
+   bodies that respects entry_hyps: no panic escapes.  entry_hyps is
+     Eval:  the text/scanner loop does not panic; the positions stamped on the code that runs / is dumped
+            carry indices lookup.Index returned, no key of the globals is empty, and the operands
+            instruction.String hands to lookup.Key are valid (only when WithCodeDump is on)
+     Load:  the same, and reading the ARGUMENT package (rawLoadPackage / rawLoadFile, outside loadImports'
+            recover) does not panic
+     Call / Func: the positions of the code that was running when a panic was raised are stamped as above *)
 Theorem c03_contain : forall (unq : string -> bool) (e : entry),
-  entry_hyps unq e -> forall w, entry_model unq e <> Escape w.
+  entry_hyps e -> forall w, entry_model unq e <> Escape w.
 Proof. exact contain_neq. Qed.
 Print Assumptions c03_contain.
+
+(* the loader on its own needs NO hypothesis: an import path strconv.Unquote rejects, a nil node, a nil
+   fs.FS, a panic while reading an imported package -- loadImports returns *)
+Theorem c03_loader_contained : forall unq sys_is_nil topPkg top fb w,
+  load_imports_model unq sys_is_nil topPkg top fb <> SEscape w.
+Proof. exact load_imports_never_escapes. Qed.
+Print Assumptions c03_loader_contained.
 
 (* every error Eval returns starts with one of the stage prefixes *)
 Theorem c03_prefix : forall unq sys_is_nil o a p,
@@ -31,18 +45,26 @@ Theorem c03_prefix : forall unq sys_is_nil o a p,
 Proof. exact eval_prefix. Qed.
 Print Assumptions c03_prefix.
 
-(* Load: the same, EXCEPT the error for values left on the stack, which carries no stage *)
+(* and so does every error Load returns (values left on the stack are "error in run: unexpected returns") *)
 Theorem c03_prefix_load : forall unq sys_is_nil pkg o a p,
-  load_model unq sys_is_nil pkg o a = Err p ->
-  (exists st, In (p, st) load_prefixes) \/ (p = "unexpected returns: " /\ la_rets a <> O).
+  load_model unq sys_is_nil pkg o a = Err p -> exists st, In (p, st) load_prefixes.
 Proof. exact load_prefix. Qed.
 Print Assumptions c03_prefix_load.
 
-(* only the running script, or the discovery of an infinite import graph, can keep an entry point from returning *)
+(* only the running script, or the discovery of an import graph on a real file system, can keep an entry
+   point from returning; the latter only by exhausting the worklist budget (c03_terminates_load: never on a
+   finite graph) *)
 Theorem c03_hang : forall unq e s, entry_model unq e = Hang s ->
   s = SRun \/ (s = SLoad /\ exists nilfs topPkg top fb, load_imports_model unq nilfs topPkg top fb = SHang).
 Proof. exact hang_stage. Qed.
 Print Assumptions c03_hang.
+
+Theorem c03_hang_load : forall unq nilfs topPkg top fb, load_imports_model unq nilfs topPkg top fb = SHang ->
+  exists p ps imports nodes budget, nilfs = false /\ top_imports unq (kids_of top) = Some (p :: ps) /\
+    fb = FRet imports nodes budget /\
+    load (fun q => if String.eqb q topPkg then Some (p :: ps) else imports q) budget topPkg = LoadFuel.
+Proof. exact load_imports_hang. Qed.
+Print Assumptions c03_hang_load.
 
 (* ---- invariants of the glue that are PROVED ---------------------------------------------------------- *)
 
@@ -53,15 +75,21 @@ Theorem c03_inv_tokens : forall sb l, tokenize_model sb = SOk l ->
 Proof. exact inv_tokens. Qed.
 Print Assumptions c03_inv_tokens.
 
-(* newPos / pos.info: the packing is lossless while file index, function index, line and column fit 16 bits *)
+(* newPos / pos.info for ARBITRARY file index, function index, line and column: each field is clamped to 16
+   bits and read back unchanged; nothing spills into the neighbouring field *)
 Theorem c03_inv_pos_roundtrip : forall fi fu line col : Z,
-  (0 <= fi < 65536)%Z -> (0 <= fu < 65536)%Z -> (0 <= line < 65536)%Z -> (0 <= col < 65536)%Z ->
-  pos_file (new_pos fi fu line col) = fi /\ pos_func (new_pos fi fu line col) = fu.
+  pos_file (new_pos fi fu line col) = clamp16 fi /\ pos_func (new_pos fi fu line col) = clamp16 fu /\
+  ((0 <= fi < 65536)%Z -> clamp16 fi = fi) /\ ((0 <= fu < 65536)%Z -> clamp16 fu = fu).
 Proof. exact pos_roundtrip. Qed.
 Print Assumptions c03_inv_pos_roundtrip.
 
+(* so a stamped position always prints: the clamped indices are inside the key table *)
+Theorem c03_inv_pos_string : forall keys p, keys_ok keys -> stamped keys p -> pos_string_ok keys p = true.
+Proof. exact stamped_ok. Qed.
+Print Assumptions c03_inv_pos_string.
+
 (* btErr (the handler of VM.run and VM.Func) is total: for ANY frame.N (negative, inside, at or beyond the end
-   of the code) and ANY backtrace, as long as the positions it prints were stamped within 16-bit fields *)
+   of the code), ANY backtrace and ANY line / column numbers *)
 Theorem c03_inv_bterr_total : forall s, vmstate_ok s -> bt_err_ok (vkeys s) (vcodes s) (vN s) (vbt s) = true.
 Proof. exact bt_err_total. Qed.
 Print Assumptions c03_inv_bterr_total.
@@ -72,7 +100,8 @@ Proof. exact load_nonempty. Qed.
 Print Assumptions c03_inv_pkgs_nonempty.
 
 (* treeDump's s[3:len(s)-1]: a package tree handed on by loadImports has at least one child (or is the
-   synthetic (_ (package _ name))) and the text "_", so its rendering has at least 4 bytes *)
+   synthetic (_ (package _ name))) and the text "_", so its rendering has at least 4 bytes -- nil operands
+   included (they print "<nil>") *)
 Theorem c03_inv_tree_dump : forall pkg t, raw_tree_ok t -> dump_one_ok (fix_empty pkg t) = true.
 Proof. exact fix_empty_ok. Qed.
 Print Assumptions c03_inv_tree_dump.
@@ -83,50 +112,49 @@ Theorem c03_inv_func : forall x b, func_beh_ok b -> forall w, func_model x b <> 
 Proof. exact func_contained_neq. Qed.
 Print Assumptions c03_inv_func.
 
-(* ---- the invariants that do NOT hold on the current implementation: the model escapes without them ---- *)
+(* ---- the inputs that used to escape (fixed in /repo: bc98689 371cd14 47eb9a0 29c9c35 6607b34) ------------ *)
 
-Definition quiet_adv (t : tree) : eval_adv :=
-  mkEvalAdv (ScanOk []) (PRet t) (FRet (fun _ => None) (fun _ => TNode "" "" []) 100)
+Definition quiet_adv (stmts : list tree) : eval_adv :=
+  mkEvalAdv (ScanOk []) (PRet stmts) (FRet (fun _ => None) (fun _ => []) 100)
             (CRet ["nil"] []) RRet (CRet ["nil"] []) RRet.
 Definition unq_go (s : string) : bool := negb (String.eqb s """\400""").
 
-(* import (x "\400") : text/scanner accepts the literal, strconv.Unquote does not; loadImports has no recover *)
-Example c03_escape_unquote :
+(* import (x "\400") : the panic of Unquote is recovered inside loadImports *)
+Example c03_fixed_unquote :
   eval_model unq_go false (mkOpt false false false)
-    (quiet_adv (TNode "" "_" [TNode "import" "import" [TNode "(name)" "x" []; TNode "(string)" """\400""" []]]))
-  = Escape "loadImports: Unquote / nil node".
+    (quiet_adv [TNode "import" "import" [TNode "(name)" "x" []; TNode "(string)" """\400""" []]])
+  = Err "error in loadImports: ".
 Proof. vm_compute. reflexivity. Qed.
 
-(* Eval(nil, ...) with any import *)
-Example c03_escape_nil_fs :
-  eval_model unq_go true (mkOpt false false false)
-    (quiet_adv (TNode "" "_" [TNode "import" "import" [TNode "(name)" "fmt" []; TNode "(string)" """fmt""" []]]))
-  = Escape "loadImports: fs.Glob on a nil fs.FS".
+(* Eval(nil, ...) with an import: the package counts as missing, the evaluation goes on *)
+Example c03_fixed_nil_fs :
+  eval_model unq_go true (mkOpt true true false)
+    (quiet_adv [TNode "import" "import" [TNode "(name)" "fmt" []; TNode "(string)" """fmt""" []]])
+  = Ok.
 Proof. vm_compute. reflexivity. Qed.
 
-(* x /;  with WithTreeDump: the parser leaves a nil operand in the tree, token.String dereferences it *)
-Example c03_escape_nil_child :
-  eval_model unq_go false (mkOpt true false false)
-    (quiet_adv (TNode "" "_" [TNode "/" "/" [TNode "(name)" "x" []; TNil]]))
-  = Escape "treeDump" /\
-  eval_model unq_go false (mkOpt false false false)
-    (quiet_adv (TNode "" "_" [TNode "/" "/" [TNode "(name)" "x" []; TNil]])) = Ok.
+(* x /;  with WithTreeDump: the missing operand prints <nil> *)
+Example c03_fixed_nil_child :
+  eval_model unq_go false (mkOpt true false false) (quiet_adv [TNode "/" "/" [TNode "(name)" "x" []; TNil]]) = Ok /\
+  tstr (TNode "" "_" [TNode "/" "/" [TNode "(name)" "x" []; TNil]]) = "(_ (/ x <nil>))".
 Proof. vm_compute. split; reflexivity. Qed.
 
-(* a statement on line 65536 + 1: bit 16 of the line lands in the function-name index (66 -> 67 = len(keys)) *)
-Example c03_escape_pos_overflow :
+(* a statement on line 65537, or 10^9, column 10^6, with more than 65536 globals: every field stays in place *)
+Example c03_fixed_pos_clamp :
   let keys := (List.repeat "k" 65 ++ ["#eval"; "#"])%list in
   let p := new_pos 65 66 65537 1 in
-  pos_func p = 67%Z /\ pos_string_ok keys p = false /\
-  run_model (RPanic (mkVmstate keys [p] 0 [])) = SEscape "btErr" /\
-  code_dump_ok true keys [mkDins p []] = false.
+  let q := new_pos 65 66 1000000000 1000000 in
+  pos_func p = 66%Z /\ pos_file q = 65%Z /\ pos_func q = 66%Z /\ pos_string_ok keys p = true /\
+  run_model (RPanic (mkVmstate keys [p; q] 1 [q])) = SErr /\
+  code_dump_ok true keys [mkDins p []; mkDins q []] = true /\
+  pos_file (new_pos 70000 66 1 1) = 65535%Z.
 Proof. vm_compute. repeat split; reflexivity. Qed.
 
-(* Load of a package whose top-level code leaves a value: the error has no stage prefix *)
-Example c03_load_unprefixed :
+(* Load of a package whose top-level code leaves a value: a run error *)
+Example c03_load_prefixed :
   load_model unq_go false "main" (mkOpt false false false)
-    (mkLoadAdv (TopRet (TNode "" "_" [TNode "(int)" "42" []])) FErr (CRet ["nil"] []) RRet 1)
-  = Err "unexpected returns: ".
+    (mkLoadAdv (TopRet [TNode "(int)" "42" []]) FErr (CRet ["nil"] []) RRet 1)
+  = Err "error in run: ".
 Proof. vm_compute. reflexivity. Qed.
 
 (* ==== (b) termination of the front end ============================================================== *)
@@ -150,11 +178,14 @@ Theorem c03_expr_consumes : forall lbp infix neg_rbp compl_rbp not_rbp paren_rbp
 Proof. exact expr_consumes. Qed.
 Print Assumptions c03_expr_consumes.
 
-(* the loader's discovery worklist and ordering loop (C15) *)
-Theorem c03_terminates_load : forall (imports : string -> option (list string)) (universe : list string),
-  (forall top p, reach imports top p -> In p universe) ->
-  forall top b, (budget imports universe <= b)%nat -> load imports b top <> LoadFuel.
-Proof. exact c15_no_fuel. Qed.
+(* the loader's discovery worklist: for every list U that contains the top package and is closed under
+   imports (the packages reachable from it: finitely many on any file tree), 2 + the number of import entries
+   of U iterations suffice.  (Stated and proved here on Model/Loader.v; C15's c15_terminates quantifies its
+   finiteness hypothesis over every top package, which no finite list satisfies.) *)
+Theorem c03_terminates_load : forall (imports : string -> option (list string)) (U : list string),
+  (forall q l x, In q U -> imports q = Some l -> In x l -> In x U) ->
+  forall top fuel, In top U -> (S (S (weight imports U)) <= fuel)%nat -> load imports fuel top <> LoadFuel.
+Proof. exact load_no_fuel. Qed.
 Print Assumptions c03_terminates_load.
 
 (* the compiler's scope table: the recursive renamers shadow / unshadow (C08) *)
@@ -207,14 +238,23 @@ Example c03_depth_witness :
   (exists t, exprD lbp_of infix_of neg_bp compl_bp not_bp commaBP 41 200 0 (nest 40) = inl (t, [])).
 Proof. split; [vm_compute; reflexivity|eexists; vm_compute; reflexivity]. Qed.
 
-(* non-vacuity of (a): a well-behaved Eval with both dumps on returns Ok, a compile error is prefixed *)
+(* non-vacuity of (a): a well-behaved Eval with both dumps on returns Ok, a compile error is prefixed, and the
+   hypotheses of c03_contain are satisfiable by exactly this behaviour *)
 Example c03_witness :
-  let top := TNode "" "_" [TNode "import" "import" [TNode "(name)" "fmt" []; TNode "(string)" """fmt""" []]; TNode "(int)" "1" []] in
+  let stmts := [TNode "import" "import" [TNode "(name)" "fmt" []; TNode "(string)" """fmt""" []]; TNode "(int)" "1" []] in
   let keys := ["nil"; "true"; "false"; "#eval"; "#"] in
   let code := [mkDins (new_pos 3 4 1 1) [0%Z]] in
+  let files := FRet (fun _ => None) (fun _ => []) 100 in
   eval_model unq_go false (mkOpt true true false)
-    (mkEvalAdv (ScanOk []) (PRet top) (FRet (fun _ => None) (fun _ => TNode "" "" []) 100) (CRet keys []) RRet (CRet keys code) RRet) = Ok /\
+    (mkEvalAdv (ScanOk []) (PRet stmts) files (CRet keys []) RRet (CRet keys code) RRet) = Ok /\
   eval_model unq_go false (mkOpt true true false)
-    (mkEvalAdv (ScanOk []) (PRet top) (FRet (fun _ => None) (fun _ => TNode "" "" []) 100) (CRet keys []) RRet (CPanic true) RRet)
-    = Err "error in compile: ".
+    (mkEvalAdv (ScanOk []) (PRet stmts) files (CRet keys []) RRet (CPanic true) RRet) = Err "error in compile: ".
 Proof. vm_compute. split; reflexivity. Qed.
+
+(* the hypotheses of c03_contain are satisfiable: a run error on line 70000 with a two-entry backtrace, both dumps on *)
+Example c03_hyps_satisfiable :
+  let keys := ["nil"; "true"; "false"; "#eval"; "#"] in
+  eval_hyps (mkOpt true true false)
+    (mkEvalAdv (ScanOk []) (PRet []) FErr (CRet keys []) (RPanic (mkVmstate keys [new_pos 3 4 70000 1] 5 [0%Z; new_pos 3 4 2 2]))
+               (CRet keys [mkDins (new_pos 3 4 1 1) [0%Z]]) RRet).
+Proof. exact eval_hyps_witness. Qed.
